@@ -80,21 +80,32 @@ Theorem C13_append_after_any : forall X rs2,
 Proof. exact append_after_any. Qed.
 Print Assumptions C13_append_after_any.
 
-(* ThreadedHistory, every schedule of loader thread / consumers / appends in
-   which no append is concurrent with loading ([ok_sched]: appends only before
-   the first load() or when the loader is done and every load() has finished):
-   a finished consumer has yielded exactly the inline sequence, an unfinished
-   one a prefix of it, and the cache is a prefix of / equal to it. *)
-Theorem C13_threaded_no_concurrent_append : forall S0 sched c,
+(* ThreadedHistory (with commit 0c2cbbe), every schedule of loader thread /
+   consumers / appends in which append_string runs one at a time, none of its
+   halves falls between the first load()'s cache reset and the loader thread's
+   reading of the storage, and the first load() does not start inside an
+   append_string ([ok_sched]) - appends at ANY other moment, in particular while
+   the loader is pushing and while load() calls are half way: a finished load()
+   has yielded exactly the entries stored (or being stored) when it started,
+   newest first; an unfinished one a prefix of that; once loading is complete
+   the cache is the storage, newest first. *)
+Theorem C13_threaded_exactly_once : forall S0 sched c,
   ok_sched (tinit S0) sched = true ->
   let st := trun (tinit S0) sched in
   In c (t_cons st) ->
-  (c_fin c = true -> c_out c = rev (c_snap c)) /\
-  (c_fin c = false -> pre (c_out c) (rev (t_store st))) /\
-  pre (t_ls st) (rev (t_store st)) /\
-  (t_loaded st = true -> t_ls st = rev (t_store st)).
-Proof. exact threaded_no_concurrent_append. Qed.
-Print Assumptions C13_threaded_no_concurrent_append.
+  (c_fin c = true -> c_out c = rev (c_start c)) /\
+  (c_fin c = false -> pre (c_out c) (rev (c_start c))) /\
+  (t_loaded st = true -> t_ls st = rev (t_store st ++ t_fly st)).
+Proof. exact threaded_exactly_once. Qed.
+Print Assumptions C13_threaded_exactly_once.
+
+(* ... hence no entry twice when the entries are distinct. *)
+Theorem C13_threaded_no_duplicates : forall S0 sched c,
+  ok_sched (tinit S0) sched = true ->
+  In c (t_cons (trun (tinit S0) sched)) -> c_fin c = true ->
+  NoDup (c_start c) -> NoDup (c_out c).
+Proof. exact threaded_no_duplicates. Qed.
+Print Assumptions C13_threaded_no_duplicates.
 
 (* Progress, for every schedule at all: give the loader its remaining steps
    and one read, and an unfinished consumer finishes. *)
@@ -106,31 +117,40 @@ Theorem C13_threaded_consumer_finishes : forall S0 sched i c,
 Proof. exact consumer_finishes. Qed.
 Print Assumptions C13_threaded_consumer_finishes.
 
-(* With an append during loading the property is FALSE in the model of the
-   code as it is (finding C13-F1 = DESIGN F5): schedule [witness_sched] makes
-   the consumer yield c, b, b, a - an entry twice, the appended one never. *)
-Theorem C13_threaded_append_refuted :
+(* The schedule of the repaired finding C13-F1 (consume c,b; append NEW; go
+   on) is inside [ok_sched] and now yields c,b,a. *)
+Theorem C13_threaded_old_witness_fixed :
+  ok_sched (tinit [sa; sb; sc]) old_witness_sched = true /\
+  let st := trun (tinit [sa; sb; sc]) old_witness_sched in
+  t_ls st = [snew; sc; sb; sa] /\ map c_out (t_cons st) = [[sc; sb; sa]].
+Proof. exact old_witness_now_fine. Qed.
+Print Assumptions C13_threaded_old_witness_fixed.
+
+(* Without the [ok_sched] restriction the property is still FALSE (findings
+   C13-F2/F2b): append_string between the first load()'s cache reset and the
+   loader's reading of the storage, then a second load() - it yields NEW twice *)
+Theorem C13_threaded_append_in_window_refuted :
   ~ (forall S0 sched c,
        let st := trun (tinit S0) sched in
        NoDup (t_store st) -> t_fly st = [] -> In c (t_cons st) -> c_fin c = true ->
        forall s, In s (c_out c) -> count_occ str_dec (c_out c) s = 1%nat).
-Proof. exact append_during_load_refuted. Qed.
-Print Assumptions C13_threaded_append_refuted.
+Proof. exact append_in_window_refuted. Qed.
+Print Assumptions C13_threaded_append_in_window_refuted.
 
-(* ... and an append between the loader's cache reset and its reading of the
-   storage leaves the entry in the cache twice (finding C13-F2). *)
+(* ... and the cache keeps the entry twice. *)
 Theorem C13_threaded_cache_refuted :
   ~ (forall S0 sched,
        let st := trun (tinit S0) sched in
        NoDup (t_store st) -> t_fly st = [] -> t_loaded st = true ->
        t_ls st = rev (t_store st)).
-Proof. exact append_before_snapshot_refuted. Qed.
+Proof. exact cache_in_window_refuted. Qed.
 Print Assumptions C13_threaded_cache_refuted.
 
 (* Non-vacuity. *)
 Example C13_valid_rec_somewhere :
   Forall valid_rec [([50; 48], [43; 10; 13; 8232; 0; 128512; 35])] /\
-  ok_sched (tinit [[97]]) [Append [98]; CStart; LStep; LStep; LStep; CRead 0; LStep; LStep; CRead 0; Append [99]] = true.
+  ok_sched (tinit [[97]]) [Append [98]; CStart; LStep; AIns [100]; LStep; CRead 0; ASto [100]; LStep;
+                           CStart; Append [99]; CRead 0; CRead 1] = true.
 Proof.
   split; [|vm_compute; reflexivity].
   constructor; [|constructor]. split; [|vm_compute; reflexivity].
